@@ -150,6 +150,56 @@ def check(ctx, name, operands, impl_fn, torch_fn, exact, reqs, meta):
         reqs.append(f'C06.dense {ptgen.enc_pt(got)}'); meta.append((case, name, gd))
 
 
+def run_binary_representation(ctx):
+    """the model `Bn.binary` of expansion + the generic binary operation predicts the REPRESENTATION of the result (fresh physical axes,
+    generalised virtual axes, the physical values over them, the default), not only the dense tensor it denotes: compared token by
+    token up to a renaming of the fresh axes, for the operations built on `binary` and on its sparsity shortcuts"""
+    from .unifygen import canon
+    from .common import enc_ext
+    OPS = {'add': lambda a, b: a.add(b), 'sub': lambda a, b: a.sub(b), 'mul': lambda a, b: a.mul(b), 'maximum': lambda a, b: a.maximum(b),
+           'lt': lambda a, b: a.lt(b), 'le': lambda a, b: a.le(b), 'eq': lambda a, b: a.eq(b), 'gt': lambda a, b: a.gt(b), 'ge': lambda a, b: a.ge(b)}
+    reqs, meta = [], []
+    for k in range(60 if ctx.quick else 1500):
+        nd = ctx.rng.choice([1, 1, 2, 2, 3])
+        types = [ptgen.random_type(ctx.rng, depth=ctx.rng.choice([1, 2, 2]), sizes=[1, 2, 3, 2], p_unit_sum=0.1 if k % 3 == 0 else 0.0) for _ in range(nd)]
+        if math.prod(ty_numel(t) for t in types) > 300:
+            continue
+        t = random_pt(ctx.rng, types, defaults=[0.0, 1.0, 2.0], specials=0.0)
+        u = random_pt(ctx.rng, types, defaults=[0.0, 1.0, 3.0], specials=0.0) if ctx.rng.random() < 0.9 else t
+        for name, f in OPS.items():
+            ids = {}
+            def enc(p_):
+                pa = enc_list(p_.paxes, lambda k_: f'{ids.setdefault(id(k_), len(ids))} {k_._numel}')
+                va = enc_list(p_.vaxes, lambda e: ptgen.enc_axis(e, ids))
+                return f'{enc_list(p_.physical.contiguous().reshape(-1).tolist(), enc_ext)} {pa} {va} {enc_ext(p_.default)}'
+            et, eu = enc(t), enc(u)
+            case = dict(op=name, operands=[et, eu])
+            try:
+                r = f(t, u)
+            except Exception as e:  # noqa
+                ctx.fail(f'{name} raised {type(e).__name__}: {str(e)[:100]} on operands of the same shape', case, repr(e), None, tags=['raises', name, type(e).__name__])
+                continue
+            ids2 = dict(ids)
+            pa = enc_list(r.paxes, lambda k_: f'P {ids2.setdefault(id(k_), len(ids2))} {k_._numel}')
+            va = enc_list(r.vaxes, lambda e: ptgen.enc_axis(e, ids2))
+            want = f'{enc_list(r.physical.to(torch.float64).contiguous().reshape(-1).tolist(), enc_ext)} {pa} {va} {enc_ext(float(r.default))}'
+            reqs.append(f'C06.binary {name} {et} {eu} {len(ids) + 5}')
+            meta.append((case, want))
+            ctx.count('binary-representation')
+    for (case, want), rep in zip(meta, ctx.driver.ask_many(reqs)):
+        if isinstance(rep, Exception):
+            raise rep
+        toks = rep.split()
+        i = 0; L = int(toks[i]); phys = toks[i + 1:i + 1 + L]; i += 1 + L
+        P = int(toks[i]); pax = toks[i + 1:i + 1 + 2 * P]; i += 1 + 2 * P
+        mp = [str(L)] + phys + [str(P)] + sum((['P', pax[2 * j], pax[2 * j + 1]] for j in range(P)), []) + toks[i:-1]
+        ctx.evaluations += 1
+        if canon(mp) != canon(want.split()):
+            ctx.disagree('Bn.binary (expansion + cell-by-cell operation): representation of the result', case, want, ' '.join(mp))
+        elif toks[-1] != 'T':
+            ctx.disagree('Bn.binary: the model\'s result is not well formed (PT.wf)', case, want, rep)
+
+
 def run_unit_factors(ctx, reqs, meta):
     """index types with a factor of ONE element that is not the unit axis (a one-component sum `0 + () + 0`, as patterned JSON
     weights can spell it) at the start, in the middle or at the END of a product, each operand representing the same type in its own
@@ -246,6 +296,7 @@ def run(ctx):
     unclassified = public - EXCLUDED - TESTED
     if unclassified:
         ctx.fail('PatternedTensor has public operations that the check does not classify', sorted(unclassified), None, None, tags=['unclassified-op'])
+    run_binary_representation(ctx)
     reqs, meta = [], []
     run_unit_factors(ctx, reqs, meta)
     U, B = unary_ops(), binary_ops()
